@@ -155,6 +155,9 @@ def translate():
         out.append(_opt_fn('r2c', lambda d: u.TYPE_MAP_R2C.get(d, None)))
         out.append(_opt_fn('c2r', lambda d: u.TYPE_MAP_C2R.get(d, None)))
         out.append(_bool_fn('can_cast_from_f64', lambda d: np.can_cast(np.dtype('float64'), d)))
+        from odl.space.npy_tensors import NumpyTensorSpace
+        avail = [np.dtype(a).char for a in NumpyTensorSpace.available_dtypes()]
+        out.append(_bool_fn('is_available', lambda d: d.char in avail))
     except AttributeError as e:
         raise TranslateError('odl.util lacks an expected predicate/map: %s' % e)
     for path, cls, name in HASH_SITES + OPTIONAL_SITES:
